@@ -47,6 +47,8 @@ func checkDefs() map[string]*CheckDef {
 				return []RunSpec{
 					{Name: "total", Pkg: ioc + "/component_definition", Entry: "VerifC19Total", Params: map[string]int{"N": tierPick(tier, 5, 6)}},
 					{Name: "required", Pkg: ioc + "/component_definition", Entry: "VerifC19Required", Params: map[string]int{"N": tierPick(tier, 4, 5)}, MustCover: []string{"parsed"}},
+					{Name: "faithful", Pkg: ioc + "/component_definition", Entry: "VerifC19Faithful", Params: map[string]int{"L": tierPick(tier, 1, 2)}, MustCover: []string{"bracketed item", "bracketed value"}},
+					{Name: "required-faithful", Pkg: ioc + "/component_definition", Entry: "VerifC19RequiredFaithful", Params: map[string]int{"X": 5}, MustCover: []string{"optional"}},
 				}
 			},
 			LevelText: "Bounded symbolic model checking of TagArg.Parse/Set/Has/Find, NewProperty, IsRequired and the real strings2.Split/Index SSA over every byte string of length <= N: no path panics (every implicit bounds check is a solver obligation).",
@@ -220,10 +222,11 @@ func checkDefs() map[string]*CheckDef {
 					rh("required-vs-optional-by-name", "VerifC07", map[string]int{"K": 2}, "optional point, no such component"),
 					{Name: "run-phases-and-runners", Pkg: app, Entry: "VerifC13", Params: map[string]int{"N": 2, "FAULTS": 1}, MustCover: []string{"start-up fault", "runner failed"}},
 					{Name: "loaders", Pkg: ioc + "/configure", Entry: "VerifC15Load", Params: map[string]int{"N": 3}, MustCover: []string{"loader failed"}},
+					{Name: "configuration-values", Pkg: prc, Entry: "VerifC09Values", MustCover: []string{"required value missing", "optional value missing", "value present"}},
 				}
 			},
 			LevelText: "Bounded symbolic model checking of three harness groups, faults injected one at a time and in pairs as solver-chosen bits: (1) every AfterPropertiesSet/Init/post-processor callback of the real factory fails on demand -> Refresh returns an error, never panics, ends within the step budget; (2) required vs optional wire points with present/absent candidates through the real resolution processors -> error iff a required point is unsatisfied, optional points stay at their zero value, no panic escapes; (3) the real App.run with failing configuration/prepare/refresh phases, loaders and runners -> run returns an error and no runner is invoked.",
-			LevelNote: "The composition into a statement about App.Run (options; initiate; run) is an informal assume-guarantee argument (DESIGN.md §3 C09), not machine-checked. Required configuration values (value/prefix/prop) are covered by the C17 harness runs.",
+			LevelNote: "The composition into a statement about App.Run (options; initiate; run) is an informal assume-guarantee argument (DESIGN.md §3 C09), not machine-checked. ",
 			Technique: techDefault + "; fault bits as symbolic variables", DesignRef: "DESIGN.md §3 C09"},
 		&CheckDef{ID: "C10", Title: "Order independence",
 			Runs: func(tier string) []RunSpec {
@@ -238,6 +241,49 @@ func checkDefs() map[string]*CheckDef {
 			LevelText: "Bounded symbolic model checking with the iteration order of sync.Map.Range and Go map range as symbolic permutations (fresh per call), the registration order of components and of the post-processors permuted: every outcome is compared with the order-free specifications of C06-C08 (success/failure, and the winner whenever the candidates are not genuinely tied; ties only inside the top-ranked set); a cyclic graph with a wrapped component is started twice in one path (canonical order vs permuted) and success and wiring must agree.",
 			LevelNote: "Bounds as C06-C08 (<=3 registry entries, i.e. 3! orders per enumeration) and n<=2 (3) for creation order. Ties between post-processors of equal Order (sort.Slice is not stable) commute by reading (disjoint tags), not by the solver. Goroutine schedules of the scanning phase only influence insertion order, which is arbitrary here; data races are C20.",
 			Technique: techDefault + "; iteration orders as symbolic permutations; two-run relational check", DesignRef: "DESIGN.md §3 C10"},
+	)
+	defs = append(defs,
+		&CheckDef{ID: "C17", Title: "Configuration values reach fields unchanged (string -> string)",
+			Runs: func(tier string) []RunSpec {
+				return []RunSpec{{Name: "string-values", Pkg: prc, Entry: "VerifC17String", Params: map[string]int{"N": tierPick(tier, 4, 5)}, MustCover: []string{"bound"}}}
+			},
+			LevelText: "Bounded symbolic model checking of the real valueAware (value tag and prop shorthand), propertiesAware (prefix) and configQuote processors, Property.Unmarshall/reflectx.SetValue and strconv2.ParseAny/FormatAny: for every ASCII string of up to N bytes as the configured value, the string fields bound through value:\"${k}\", prop:\"k\", a value-tag literal and prefix:\"k\" all equal the configured string - outside five listed finding classes, each of which is reproduced natively on every run.",
+			LevelNote: "Reduced claim: string -> string only. Integers, floats, booleans, lists, maps, nested structs and pointers are converted by viper/YAML, strconv float formatting and mapstructure's reflection, none of which is encoded (mapstructure is a contract stub: string -> string identity). Alphabet: ASCII without $ # { } [ ] ( ) and comma (placeholder/bracket syntax is C16/C19). N <= 4 (thorough 5) bytes.",
+			Technique: techDefault, DesignRef: "DESIGN.md §3 C17"},
+		&CheckDef{ID: "C18", Title: "Expressions after substitution, validation after binding (glue)",
+			Runs: func(tier string) []RunSpec {
+				return []RunSpec{
+					{Name: "stage-order", Pkg: prc, Entry: "VerifC18Order", Params: map[string]int{"EXTRA": tierPick(tier, 1, 2)}, MustCover: []string{"sorted"}},
+					{Name: "expression-data-flow", Pkg: prc, Entry: "VerifC18Expr", MustCover: []string{"evaluated", "literal text before the expression"}},
+					{Name: "validation-glue", Pkg: prc, Entry: "VerifC18Validate", Params: map[string]int{"N": tierPick(tier, 3, 4)}, MustCover: []string{"constraint violated", "constraint satisfied"}},
+				}
+			},
+			LevelText: "Bounded symbolic model checking of the glue in go-kid/ioc's own code: (a) the nine real processor objects plus extra user processors of symbolic class and 64-bit Order are sorted by the real SortOrderedComponents and configQuote < expression < {value, properties} < validate always holds; (b) real configQuote then expression then value processors on pre #{e1 ${k} e2} post: the text compiled is exactly the substituted text and the field receives pre+result+post; (c) the real validate processor fails exactly when the validator rejects the bound value, for fields with and without a validate argument, required and optional.",
+			LevelNote: "Reduced claim: what expr-lang computes and which values go-playground/validator rejects are outside - expr.Compile/Run is an uninterpreted injective function of the text, the validator's verdict an uninterpreted function of (value, constraint) except required/min/max on ASCII strings. Natively the same harness uses the real libraries (sampled paths are replayed).",
+			Technique: techDefault + "; third-party interpreters as uninterpreted functions", DesignRef: "DESIGN.md §3 C18"},
+	)
+	defs = append(defs,
+		&CheckDef{ID: "C11", Title: "Tag scanning through embedded structs, frame condition",
+			Runs: func(tier string) []RunSpec {
+				return []RunSpec{{Name: "shapes", Pkg: fac, Entry: "VerifC11", Params: map[string]int{"SHAPES": 7}, MustCover: []string{"see-through embedding", "opaque embedding"}, Opts: ExecOpts{PermuteRange: tier == "thorough"}}}
+			},
+			LevelText: "Bounded symbolic model checking of NewMeta/scanFields/ForEachFieldV2, the real tag-scan processors (wire, func, value+prop, prefix, logger) plus a custom-tag processor, and the real populate path, on a fixed family of struct shapes (flat; the same tagged block embedded by value at depth 1, 2, 3; embedded struct with an unexported type name, also in the middle of the chain; embedded struct that itself carries a tag; embedded pointer-to-struct) with SYMBOLIC initial contents of every field and symbolic configured values: per shape the property list and every bound value equal those of the flat twin, the custom processor receives exactly its field with value and arguments, and unexported / untagged / foreign-tagged / unexported-but-tagged fields are bit-identical afterwards.",
+			LevelNote: "Reduced claim: struct types are program text, not solver data - the quantification over 'all struct shapes' is NOT addressed, only the 8 shapes listed. The reflect model's CanSet/embedding rules are validated by native replay of the sampled paths on exactly these shapes.",
+			Technique: techDefault, DesignRef: "DESIGN.md §3 C11"},
+		&CheckDef{ID: "C20", Title: "Races and atomicity",
+			Runs: func(tier string) []RunSpec {
+				il := func(sw int) ExecOpts { return ExecOpts{Sched: "interleave", MaxSwitches: sw, Races: true} }
+				return []RunSpec{
+					{Name: "load-or-store-fn", Pkg: ioc + "/util/sync2", Entry: "VerifC20LoadOrStoreFn", MustCover: []string{"same key", "different keys"}, Opts: il(tierPick(tier, 3, 4))},
+					{Name: "map-linearizable", Pkg: ioc + "/util/sync2", Entry: "VerifC20Linearizable", Params: map[string]int{"OPS": tierPick(tier, 1, 2), "KEYS": tierPick(tier, 2, 1)}, MustCover: []string{"history checked"}, Opts: il(2)},
+					{Name: "set", Pkg: ioc + "/util/list", Entry: "VerifC20Set", Params: map[string]int{"OPS": tierPick(tier, 1, 2)}, MustCover: []string{"set history checked"}, Opts: il(2)},
+					{Name: "scan-phase-races", Pkg: fac, Entry: "VerifC20Scan", Params: map[string]int{"N": tierPick(tier, 3, 4)}, MustCover: []string{"several scanners fail at the same time"}, Opts: ExecOpts{Sched: "join", Races: true}},
+					{Name: "close-races", Pkg: app, Entry: "VerifC14", Params: map[string]int{"N": 3}, MustCover: []string{"several closers"}, Opts: ExecOpts{Sched: "join", Races: true}},
+				}
+			},
+			LevelText: "Bounded symbolic model checking with engine goroutines: (a) sync2.Map.{Load,Store,LoadOrStore,LoadOrStoreFn,Delete} and ConcurrentSets.{Put,Exists,Remove} from two goroutines under every interleaving of their visible operations (bounded context switches): two load-or-stores never both win, every history is linearizable (checker written in the harness); (b) the real applyDefinitionRegistryPostProcessors (real tag scanner + scanners failing on solver-chosen components) and App.Close under the adversarial-join schedule with a happens-before race detector (vector clocks over spawn, WaitGroup, Mutex, sync.Map entries, atomics, channels): no two unordered conflicting accesses to one heap cell.",
+			LevelNote: "Bounds: 2 goroutines x 1 (2) operations over 2 (1) keys, <=2-4 preemptive context switches; <=3 (4) scanned components. sync.Map, sync.Mutex, sync.WaitGroup and sync/atomic are trusted models (each method one atomic step); memory model = sequential consistency + happens-before bookkeeping; preemption inside user callbacks, log.Logger, viper and Range concurrent with writers are outside. Counterexamples are replayed natively (go test -race / a barrier inside the LoadOrStoreFn callback).",
+			Technique: techDefault + "; goroutine schedules as symbolic choices; happens-before race detection in the executor", DesignRef: "DESIGN.md §3 C20"},
 	)
 	m := map[string]*CheckDef{}
 	for _, d := range defs {
